@@ -373,6 +373,14 @@ func init() {
 		if err != nil {
 			evid.Inconclusive("trace validation: %v", err)
 		}
+		// several messages per connection: commands resume after every one of them
+		nh := 240
+		if tier == "thorough" {
+			nh = 3000
+		}
+		hc, hm := c01Histories(run, t, nh)
+		fmt.Printf("C02: %d messages over %d connections with histories (RSET, refused and chunked messages, STARTTLS in between)\n", hm, hc)
+		nconv += hc
 		fmt.Printf("C02: DataStream %d states, session %d states; reader sweep %d runs; %d end-to-end conversations over %d templates x %d combos; %d traces validated by TLC (%d accepted)\n",
 			mc.Distinct, smc.Distinct, ds.runs, nconv, len(templates), len(combos), vs.Walks, vs.Accepted)
 		samples := []interface{}{}
